@@ -427,4 +427,45 @@ def run(prog):
         from .base import verdict_of, errtext
         out.append(inst("PM", "%s:per-literal" % fn.npath, verdict_of(errs), fn, None,
                         errtext(errs) if errs else "true(self) \\ true(other) and false(self) \\ false(other)"))
+    out += shared_model_restored(prog)
+    return out
+
+
+def shared_model_restored(prog):
+    """A recursive search that works on one shared `&mut PartialModel` instead of a copy per node must hand the model back
+    as it received it: on every path from `model.set(x, _)` to a return there is a `model.unset(x)` for the same x.  An
+    assignment that survives the call changes what the *caller's* later bound evaluations and leaf values are computed
+    for (branches are pruned against bounds of a different sub-problem).  No function of the crate shares a model today
+    (the searches clone); the rule ranges over every recursive function with a `&mut PartialModel` parameter."""
+    out = []
+    n = 0
+    for fn in prog.lib_fns:
+        if "::test" in fn.npath or fn.name.startswith("test") or fn.kind == "Closure" or fn.impl_self == PMT:
+            continue
+        ps = [i for i in range(1, fn.argc + 1) if "&mut" in fn.locals[i]["s"] and "PartialModel" in fn.locals[i]["s"]]
+        if not ps:
+            continue
+        te, cfg = fn.terms, fn.cfg
+        if not any(cs.callee.name == fn.name and fn in prog.resolve(cs.callee) for cs in te.calls):
+            continue
+        for p in ps:
+            n += 1
+            sets = [cs for cs in te.calls if cs.callee.name == "set" and "PartialModel" in cs.callee.key() and cs.args and strip(cs.args[0]) == ("param", p)]
+            unsets = [cs for cs in te.calls if cs.callee.name == "unset" and "PartialModel" in cs.callee.key() and cs.args and strip(cs.args[0]) == ("param", p)]
+            errs = []
+            for cs in sets:
+                x = strip(cs.args[1])
+                undo = {u.bb for u in unsets if strip(u.args[1]) == x}
+                start = fn.blocks[cs.bb]["term"].get("target")
+                if start is None:
+                    continue
+                reach = cfg.reachable_from(start, avoid=undo)
+                if any(r in reach for r in cfg.returns):
+                    errs.append("`%s.set(%s, _)` (line %d) can reach a return without `unset` of that variable: the caller goes on with a "
+                                "model that still carries this node's assignment, so its next bounds and leaf values are those of "
+                                "another sub-problem" % (fn.arg_name(p) or "model", show(x)[:30], cs.line))
+            out.append(inst("PM", "%s:shared-model-restored" % fn.npath, VIOLATION if errs else OK, fn, None,
+                            errs[0] if errs else "every set on the shared model is undone before the function returns"))
+    out.append(inst("PM", "shared-model-restored:scope", OK, None, None,
+                    "%d recursive function(s) with a `&mut PartialModel` parameter" % n, loc="src/repr/bdd.rs:0"))
     return out
